@@ -24,8 +24,8 @@ ID = "C35"
 LEVEL = "exploration"
 RULE = (
   "enumerate arrangements x camera model x resolution x nworld x rendered groups; every pixel of every camera in every world is "
-  "compared with the brute-force ray cast of its own ray; non-trivial = the image has hit and background pixels (or is 1x1) and "
-  ">=3 geom types are visible over the cameras; distinct = hash of the spec"
+  "compared with the brute-force ray cast of its own ray; non-trivial = at least one pixel of some camera hits a geom; "
+  "distinct = hash of the spec"
 )
 BOUNDS = {
   "quick": "3 arrangements x 4 camera models x 3 resolutions x nworld {1,2} x 3 group sets = 216 scenarios, 3 cameras each",
@@ -35,6 +35,7 @@ ASSUMPTIONS = [
   "oracle 1 is mjw.rays without a render context (C34 checks that function against mj_ray); depth class f32, ids exact",
   "cameras are kept outside every geom, so back-face culling on/off must give the same image",
   "oracle 2 uses MuJoCo's camprojection sensor, which ignores the principal point: cameras with a principal point are only checked by oracle 1",
+  "intrinsic cameras get a sensor with the aspect ratio of the rendered image (a mismatch is cropped by MJWarp and stretched by MuJoCo's projection; not part of the property)",
   "no OpenGL in the sandbox: MuJoCo's own renderer is not available as a reference; rgb/shading is out of scope of the property",
   "no transparent geoms in the scene (rays() skips alpha=0 geoms, the renderer draws them); flex is out of scope (C40)",
 ]
@@ -46,21 +47,30 @@ RESOLUTIONS = ((1, 1), (3, 2), (8, 8), (16, 12))
 GROUPSETS = ((0, 1, 2, 3, 4, 5), (0, 1, 2), (1, 3, 5))
 
 
-def cam_attrs(kind, res, i):
+def cam_attrs(kind, res, i, aspect):
   r = f'resolution="{res[0]} {res[1]}"' if res else ""
+  ss = f"{0.024 * aspect:.6g} 0.024"  # the sensor has the aspect ratio of the rendered image (MuJoCo and MJWarp treat a mismatch differently)
   if kind == "fovy":
     return f'{r} fovy="{(38, 55, 70)[i]}"'
   if kind == "intrinsic":
-    return f'{r} sensorsize="0.036 0.024" focal="{(0.03, 0.024, 0.018)[i]} {(0.028, 0.026, 0.02)[i]}"'
+    return f'{r} sensorsize="{ss}" focal="{(0.03, 0.024, 0.018)[i]} {(0.028, 0.026, 0.02)[i]}"'
   if kind == "principal":
-    return f'{r} sensorsize="0.036 0.024" focal="0.03 0.028" principal="{(0.004, -0.003, 0.002)[i]} {(-0.002, 0.003, 0.0045)[i]}"'
+    return f'{r} sensorsize="{ss}" focal="0.03 0.028" principal="{(0.004, -0.003, 0.002)[i]} {(-0.002, 0.003, 0.0045)[i]}"'
   return f'{r} projection="orthographic" fovy="{(2.4, 3.0, 1.6)[i]}"'
+
+
+def cam_resolutions(scn):
+  """Camera 1 renders the transposed resolution, so pixel offsets of the cameras differ."""
+  w, h = scn["res"]
+  return [(w, h), (h, w), (w, h)]
 
 
 def build_xml(scn):
   v, arr = scn["variant"], scn["arr"]
-  res = tuple(scn["res"]) if scn["resmode"] == "model" else None
   kind = scn["kind"]
+  rs = cam_resolutions(scn)
+  res = [r if scn["resmode"] == "model" else None for r in rs]
+  aspect = [r[0] / r[1] for r in rs]
   ring = []
   n = len(SLOT_TYPES)
   for k in range(n):
@@ -72,17 +82,19 @@ def build_xml(scn):
     ring.append((t, k, space.fmt(tuple(float(x) for x in p)), space.fmt(q)))
   static, moving, child = [], [], []
   for t, k, p, q in ring:
-    g = c34.geom_xml(t, f"g_{t}", group=k % 6, pos=p, quat=q)
+    # group by type (not by slot) and a fixed model extent below: the render kernel is specialised on the set of rendered geom
+    # types and on znear = vis.map.znear * stat.extent, so this keeps the number of kernel variants (CPU compiles) at 12
+    g = c34.geom_xml(t, f"g_{t}", group=SLOT_TYPES.index(t) % 6, pos=p, quat=q)
     (static if t in c34.STATIC_ONLY else (child if k % 3 == 2 else moving)).append(g)
   return (
-    f'<mujoco><compiler angle="radian"/>{c34.ASSET}<visual><map znear="0.01"/></visual><worldbody>'
+    f'<mujoco><compiler angle="radian"/>{c34.ASSET}<visual><map znear="0.01"/></visual><statistic extent="4" center="0 0 0.5"/><worldbody>'
     '<geom name="floor" type="plane" size="1.6 1.3 0.1" pos="0 0 -0.05" group="0"/>'
     + "".join(static)
-    + f'<camera name="cA" pos="0.2 -3.4 1.5" xyaxes="1 0.05 0 0 0.35 1" {cam_attrs(kind, res, 0)}/>'
-    + f'<camera name="cB" pos="2.4 2.2 2.6" xyaxes="-0.7 0.75 0 -0.45 -0.4 0.8" {cam_attrs(kind, res, 1)}/>'
+    + f'<camera name="cA" pos="0.2 -3.4 1.5" xyaxes="1 0.05 0 0 0.35 1" {cam_attrs(kind, res[0], 0, aspect[0])}/>'
+    + f'<camera name="cB" pos="2.4 2.2 2.6" xyaxes="-0.7 0.75 0 -0.45 -0.4 0.8" {cam_attrs(kind, res[1], 1, aspect[1])}/>'
     + '<body name="b1" pos="0 0 0.1"><joint name="j1" type="hinge" axis="0 0 1"/>'
     + "".join(moving)
-    + f'<camera name="cC" pos="0 0 0.55" xyaxes="0 -1 0 0.1 0 1" {cam_attrs(kind, res, 2)}/>'
+    + f'<camera name="cC" pos="0 0 0.55" xyaxes="0 -1 0 0.1 0 1" {cam_attrs(kind, res[2], 2, aspect[2])}/>'
     + '<body name="b2" pos="0 0 0.05"><joint name="j2" type="slide" axis="0 0 1"/>'
     + "".join(child)
     + "</body></body>"
@@ -147,11 +159,11 @@ def execute(scn):
   mjw.com_pos(m, d)
   mjw.camlight(m, d)
   groups = list(GROUPSETS[scn["groups"]])
-  res = tuple(scn["res"])
   kw = dict(nworld=nworld, render_rgb=bool(scn["rgb"]), render_depth=True, render_seg=True, enabled_geom_groups=groups,
             enable_backface_culling=bool(scn["cull"]), use_precomputed_rays=bool(scn["precomputed"]))  # fmt: skip
+  rs = cam_resolutions(scn)
   if scn["resmode"] == "arg":
-    kw["cam_res"] = res
+    kw["cam_res"] = [tuple(r) for r in rs]
   rc = mjw.create_render_context(mjm, **kw)
   mjw.refit_bvh(m, d, rc)
   mjw.render(m, d, rc)
@@ -159,10 +171,12 @@ def execute(scn):
   seg = rc.seg_data.numpy()
   table = rc.ray.numpy().astype(np.float64)
   ncam = mjm.ncam
-  W, H = res
-  npx = W * H
-  c.equal("cam_res", rc.cam_res.numpy(), np.array([[W, H]] * ncam), vkey="context:cam_res")
-  if not c.true("buffers", depth.shape == (nworld, ncam * npx) and table.shape[0] == ncam * npx, f"depth {depth.shape} rays {table.shape}", vkey="context:buffer_shape"):
+  npxs = [r[0] * r[1] for r in rs]
+  offs = [0] + list(np.cumsum(npxs))
+  nray = int(offs[-1])
+  cam_of = np.concatenate([np.full(n, ci) for ci, n in enumerate(npxs)])
+  c.equal("cam_res", rc.cam_res.numpy(), np.array(rs), vkey="context:cam_res")
+  if not c.true("buffers", depth.shape == (nworld, nray) and table.shape[0] == nray, f"depth {depth.shape} rays {table.shape}", vkey="context:buffer_shape"):
     return c.result(nontrivial=False, key=util.sha(scn))
   cam_xpos = d.cam_xpos.numpy().astype(np.float64)
   cam_xmat = d.cam_xmat.numpy().astype(np.float64)
@@ -173,35 +187,37 @@ def execute(scn):
 
   # ---- oracle 2: the ray table against MuJoCo's own projection
   if ortho:
-    if npx > 1:
-      same = all(np.array_equal(table[ci * npx], table[ci * npx + k]) for ci in range(ncam) for k in range(npx))
+    if npxs[0] > 1:
+      same = all(np.array_equal(table[offs[ci]], table[offs[ci] + k]) for ci in range(ncam) for k in range(npxs[ci]))
       c.true("ray_table:orthographic", not same, "every pixel of an orthographic camera is cast along the same ray from the same origin (constant image)", vkey="ray_table:orthographic:all_pixels_same_ray")
   elif scn["kind"] != "principal":
     mjd = mjds[0]
+    import copy
+
+    mjp = copy.deepcopy(mjm)  # camprojection works in the resolution stored in the model: give it the rendered one
+    mjp.cam_resolution[:] = np.array(rs)
     worst = 0.0
     for ci in range(ncam):
-      for k in range(npx):
+      W = rs[ci][0]
+      for k in range(npxs[ci]):
         px, py = k % W, k // W
-        dirw = mjd.cam_xmat[ci].reshape(3, 3) @ table[ci * npx + k]
-        pd = mujoco.MjData(mjm)
+        dirw = mjd.cam_xmat[ci].reshape(3, 3) @ table[offs[ci] + k]
+        pd = mujoco.MjData(mjp)
         pd.qpos[:] = mjd.qpos
         pd.mocap_pos[0] = mjd.cam_xpos[ci] + 1.7 * dirw
-        mujoco.mj_forward(mjm, pd)
-        # camprojection works in the resolution stored in the model
-        rw, rh = mjm.cam_resolution[ci]
-        got = np.array(pd.sensordata[2 * ci : 2 * ci + 2]) * np.array([W / rw, H / rh])
+        mujoco.mj_forward(mjp, pd)
+        got = np.array(pd.sensordata[2 * ci : 2 * ci + 2])
         worst = max(worst, float(np.max(np.abs(got - np.array([px + 0.5, py + 0.5])))))
-    c.true("ray_table:projection", worst < 2e-3 * max(W, H), f"a point on a pixel's ray projects {worst:.4g} px away from the pixel centre (MuJoCo camprojection)", vkey=f"ray_table:projection:{kindkey}")
+    c.true("ray_table:projection", worst < 2e-3 * max(rs[0]), f"a point on a pixel's ray projects {worst:.4g} px away from the pixel centre (MuJoCo camprojection)", vkey=f"ray_table:projection:{kindkey}")
 
   # ---- oracle 1: every pixel against the brute-force cast of its own ray
-  P = np.zeros((nworld, ncam * npx, 3))
-  V = np.zeros((nworld, ncam * npx, 3))
+  P = np.zeros((nworld, nray, 3))
+  V = np.zeros((nworld, nray, 3))
   for w in range(nworld):
     for ci in range(ncam):
-      sl = slice(ci * npx, (ci + 1) * npx)
+      sl = slice(offs[ci], offs[ci + 1])
       P[w, sl] = cam_xpos[w, ci]
       V[w, sl] = table[sl] @ cam_xmat[w, ci].T
-  nray = ncam * npx
   pnt = wp.array(P.astype(np.float32), dtype=wp.vec3)
   vec = wp.array(V.astype(np.float32), dtype=wp.vec3)
   exw = wp.array(np.full(nray, -1, dtype=np.int32), dtype=int)
@@ -247,9 +263,10 @@ def execute(scn):
       viol.setdefault(vk, [0, None])
       viol[vk][0] += 1
       if viol[vk][1] is None:
-        ci, k = r // npx, r % npx
+        ci = int(cam_of[r])
+        k = r - offs[ci]
         viol[vk][1] = (
-          f"world {w} camera {ci} pixel ({k % W},{k // W}): render depth={depth[w, r]:.6g} seg={got_seg}; ray cast dist={d0:.6g} "
+          f"world {w} camera {ci} pixel ({k % rs[ci][0]},{k // rs[ci][0]}): render depth={depth[w, r]:.6g} seg={got_seg}; ray cast dist={d0:.6g} "
           f"-> depth={want_depth:.6g} seg={want_seg}; mj_ray=({ref[0]:.6g}, {ref[1]})"
         )
   for vk in sorted(viol):
@@ -258,14 +275,16 @@ def execute(scn):
 
   # ---- accessors
   for ci in range(ncam):
+    W, H = rs[ci]
+    npx = npxs[ci]
     out = wp.zeros((nworld, H, W), dtype=float)
     scale = 3.0
     mjw.get_depth(rc, ci, scale, out)
-    want = np.clip(rc.depth_data.numpy()[:, ci * npx : (ci + 1) * npx] / np.float32(scale), 0.0, 1.0).reshape(nworld, H, W)
+    want = np.clip(rc.depth_data.numpy()[:, offs[ci] : offs[ci + 1]] / np.float32(scale), 0.0, 1.0).reshape(nworld, H, W)
     c.close(f"get_depth:cam{ci}", out.numpy(), want, 1e-6, vkey="get_depth")
     so = wp.zeros((nworld, H, W), dtype=wp.vec2i)
     mjw.get_segmentation(rc, ci, so)
-    c.equal(f"get_segmentation:cam{ci}", so.numpy().reshape(nworld, npx, 2), seg[:, ci * npx : (ci + 1) * npx].reshape(nworld, npx, 2), vkey="get_segmentation")
-  nontrivial = hits > 0 and (miss > 0 or npx == 1) and (len(types_seen) >= 3 or npx <= 6)
+    c.equal(f"get_segmentation:cam{ci}", so.numpy().reshape(nworld, npx, 2), seg[:, offs[ci] : offs[ci + 1]].reshape(nworld, npx, 2), vkey="get_segmentation")
+  nontrivial = hits > 0
   info = dict(pixels=nworld * nray, hits=hits, miss=miss, boundary=nb, types=sorted(types_seen))
   return c.result(nontrivial=nontrivial, key=util.sha(scn), info=info, counts=dict(pixels_compared=nworld * nray, boundary_pixels=nb))
